@@ -29,6 +29,11 @@ pub struct Faults {
     pub short: Vec<usize>,
     /// source fragment sizes, cyclic; empty = everything at once
     pub frags: Vec<usize>,
+    /// positional answers of the sink taken from a behaviour of MC_IoFaults: the i-th write call accepts
+    /// min(r, len) bytes (r > 0), returns Ok(0) (r = 0) or fails (r = -1); calls beyond the script accept everything
+    pub wscript: Vec<i64>,
+    /// positional answers to flush calls (false = fails)
+    pub fscript: Vec<bool>,
 }
 
 pub struct LogSink {
@@ -45,6 +50,16 @@ impl Write for LogSink {
         self.writes += 1;
         let pos = self.data.len();
         let good = pos + buf.len() <= self.expected.len() && &self.expected[pos..pos + buf.len()] == buf;
+        if let Some(&r) = self.f.wscript.get(self.writes - 1) {
+            if r < 0 {
+                self.log.borrow_mut().push(json!({"ev": "W", "len": buf.len(), "r": -1, "good": good}));
+                return Err(io::Error::new(io::ErrorKind::Other, "scripted write failure"));
+            }
+            let n = (r as usize).min(buf.len());
+            self.data.extend_from_slice(&buf[..n]);
+            self.log.borrow_mut().push(json!({"ev": "W", "len": buf.len(), "r": n, "good": good}));
+            return Ok(n);
+        }
         if self.f.write_at == self.writes {
             self.log.borrow_mut().push(json!({"ev": "W", "len": buf.len(), "r": -1, "good": good}));
             return Err(io::Error::new(io::ErrorKind::Other, "scripted write failure"));
@@ -63,6 +78,10 @@ impl Write for LogSink {
     }
     fn flush(&mut self) -> io::Result<()> {
         self.flushes += 1;
+        if self.f.fscript.get(self.flushes - 1) == Some(&false) {
+            self.log.borrow_mut().push(json!({"ev": "F", "ok": false}));
+            return Err(io::Error::new(io::ErrorKind::Other, "scripted flush failure"));
+        }
         if self.f.flush_at == self.flushes {
             self.log.borrow_mut().push(json!({"ev": "F", "ok": false}));
             return Err(io::Error::new(io::ErrorKind::Other, "scripted flush failure"));
@@ -282,7 +301,31 @@ fn opt_for(a: Api, input: &[u8]) -> Api {
     }
 }
 
-pub fn run(prop: &str, seed: u64, ninputs: usize, trace_path: Option<&str>, rep: &mut Report) {
+/// Fault scripts = finished behaviours of MC_IoFaults (the sink's answers in call order).
+fn load_tlc_scripts(path: Option<&str>, rep: &mut Report) -> Vec<(Vec<i64>, Vec<bool>)> {
+    let mut v: Vec<(Vec<i64>, Vec<bool>)> = vec![];
+    if let Some(p) = path {
+        for l in crate::d_lzma::tlc_json_lines(p, "IO") {
+            if let Ok(j) = serde_json::from_str::<Value>(&l) {
+                let sc: Vec<i64> = j["script"].as_array().map(|a| a.iter().map(|x| x.as_i64().unwrap_or(1)).collect()).unwrap_or_default();
+                let ws: Vec<i64> = sc.iter().cloned().filter(|x| x.abs() != 100).collect();
+                let fs: Vec<bool> = sc.iter().filter(|x| x.abs() == 100).map(|x| *x > 0).collect();
+                // fault-free scripts without short writes add nothing
+                if ws.iter().all(|&r| r >= 3) && fs.iter().all(|&b| b) {
+                    continue;
+                }
+                if !v.contains(&(ws.clone(), fs.clone())) {
+                    v.push((ws, fs));
+                }
+            }
+        }
+        rep.add("tlc_fault_scripts", v.len() as u64);
+    }
+    v
+}
+
+pub fn run(prop: &str, seed: u64, ninputs: usize, trace_path: Option<&str>, export: Option<&str>, rep: &mut Report) {
+    let tlc_scripts = load_tlc_scripts(export, rep);
     let mut rng = StdRng::seed_from_u64(seed ^ 0x10f);
     let mut trace: Vec<String> = vec![];
     let apis = [
@@ -364,6 +407,9 @@ pub fn run(prop: &str, seed: u64, ninputs: usize, trace_path: Option<&str>, rep:
                     scripts.push((format!("short[{}]+write#{}", sp, k), Faults { short: vec![sp], write_at: k, ..Default::default() }));
                 }
             }
+            for (i, (ws, fs)) in tlc_scripts.iter().enumerate() {
+                scripts.push((format!("tlc#{}:w{:?}f{:?}", i, ws, fs), Faults { wscript: ws.clone(), fscript: fs.clone(), ..Default::default() }));
+            }
             let mut trace_budget_left = 120usize;
             for (sname, f) in scripts {
                 // the encoders' output legitimately depends on how the source fragments its data
@@ -425,7 +471,7 @@ pub fn run(prop: &str, seed: u64, ninputs: usize, trace_path: Option<&str>, rep:
                 }
                 if !vs.is_empty() {
                     rep.violation(prop, format!("{} [{} / {}]: {}", a.name(), iname, sname, vs.join("; ")),
-                        json!({"kind": "io", "api": a.name(), "input_hex": hex(&input), "script": sname, "faults": {"write_at": f.write_at, "zero_at": f.zero_at, "flush_at": f.flush_at, "read_at": f.read_at, "short": f.short, "frags": f.frags}}));
+                        json!({"kind": "io", "api": a.name(), "input_hex": hex(&input), "script": sname, "faults": {"write_at": f.write_at, "zero_at": f.zero_at, "flush_at": f.flush_at, "read_at": f.read_at, "short": f.short, "frags": f.frags, "wscript": f.wscript, "fscript": f.fscript}}));
                 } else if rep.samples.len() < 6 && sname.ends_with("#2") {
                     rep.sample(json!({"api": a.name(), "input": iname, "script": sname, "calls": {"writes": probe.writes, "flushes": probe.flushes, "reads": probe.reads}, "verdict": format!("{:?}", r.verdict), "sink_len": r.sink.len()}));
                 }
@@ -463,12 +509,15 @@ pub fn replay_value(v: &Value, prop: &str, rep: &mut Report) {
     let fj = &v["faults"];
     let g = |k: &str| fj[k].as_u64().unwrap_or(0) as usize;
     let lst = |k: &str| -> Vec<usize> { fj[k].as_array().map(|a| a.iter().map(|x| x.as_u64().unwrap() as usize).collect()).unwrap_or_default() };
-    let f = Faults { write_at: g("write_at"), zero_at: g("zero_at"), flush_at: g("flush_at"), read_at: g("read_at"), short: lst("short"), frags: lst("frags") };
+    let wscript: Vec<i64> = fj["wscript"].as_array().map(|a| a.iter().map(|x| x.as_i64().unwrap_or(1)).collect()).unwrap_or_default();
+    let fscript: Vec<bool> = fj["fscript"].as_array().map(|a| a.iter().map(|x| x.as_bool().unwrap_or(true)).collect()).unwrap_or_default();
+    let f = Faults { write_at: g("write_at"), zero_at: g("zero_at"), flush_at: g("flush_at"), read_at: g("read_at"), short: lst("short"), frags: lst("frags"), wscript, fscript };
     let empty = Rc::new(vec![]);
     let probe = run_api(a, &input, &empty, &Faults::default());
     let expected = Rc::new(probe.sink.clone());
     let r = run_api(a, &input, &expected, &f);
-    let fired = f.write_at + f.zero_at + f.flush_at + f.read_at > 0;
+    // what the log says happened decides (a scripted fault beyond the calls actually made never fires)
+    let fired = r.log.iter().any(|e| (e["ev"] == "W" && (e["r"] == -1 || (e["r"] == 0 && e["len"].as_u64().unwrap_or(0) > 0))) || (e["ev"] == "F" && e["ok"] == false) || (e["ev"] == "R" && e["ok"] == false));
     let bad = match r.verdict {
         Verdict::Panic => true,
         Verdict::Ok => fired || r.sink != *expected,
